@@ -55,6 +55,9 @@ fn check_replace(variant: usize) -> Option<String> {
             other.push(WordWeightRecord::new("猫".into(), vec![30, 40], "b".into()).unwrap());
             other.push(WordWeightRecord::new("火星".into(), vec![5, 6, 7], "".into()).unwrap());
             other.push(WordWeightRecord::new("猫".into(), vec![500, 600], "c".into()).unwrap());
+            // records that change no score (all weights zero) are records all the same: kept, with their comments
+            other.push(WordWeightRecord::new("火星人".into(), vec![0, 0, 0, 0], "no effect, still a record".into()).unwrap());
+            other.insert(0, WordWeightRecord::new("星".into(), vec![0, 0], "".into()).unwrap());
         }
     }
     let n_tag_models = model.tag_models().len();
@@ -116,7 +119,10 @@ fn check_cli(variant: usize) -> Option<String> {
         1 => vec![],
         v => CLI_WORDS[..(v - 1).min(CLI_WORDS.len())].iter().enumerate().map(|(i, (w, c))| {
             let n = w.chars().count();
-            WordWeightRecord::new(w.to_string(), (0..=n as i32).map(|k| k * 7 - 3 * i as i32).collect(), c.to_string()).unwrap()
+            // (every third record carries weights that need all 32 bits: not representable as f32 or in 16 bits; every fifth
+            // only zeros: a record that changes no score is a record all the same)
+            let big = [16_777_217, -16_777_219, i32::MAX, i32::MIN, 1_000_000_007, -2_147_483_647];
+            WordWeightRecord::new(w.to_string(), (0..=n as i32).map(|k| if i % 3 == 2 { big[(k as usize + i) % big.len()] } else if i % 5 == 4 { 0 } else { k * 7 - 3 * i as i32 }).collect(), c.to_string()).unwrap()
         }).collect(),
     };
     model.replace_dictionary(dict);
